@@ -39,7 +39,7 @@ def stores_assign(fi, name):
 
 
 @rule("C01.R1", "C01", "WMC", "formula reachable only through the cache-miss branch of eval_node",
-      min_instances=12)
+      min_instances=12, also=("C07",))
 def r1(ctx, R):
     """Formula invocations `<o>.altfunc.fresh.altfunc(*key)` occur only in on_eval_formula;
     on_eval_formula <- _eval_formula <- {eval_node, _start_exec, ExecThread.run}; _start_exec
@@ -181,7 +181,7 @@ def r1(ctx, R):
         R.bad(gv, gv.node, "get_value_from_key does not return the held instance", stmt="get_value_from_key")
 
 
-@rule("C01.R2", "C01", "FLOW", "result stored under the key that was looked up", min_instances=8)
+@rule("C01.R2", "C01", "FLOW", "result stored under the key that was looked up", min_instances=8, also=("C07",))
 def r2(ctx, R):
     """on_eval_formula(self, key): key is never re-bound; formula call is `(*key)`; store is
     `_store_value(key, ...)` / `param_spaces[key] = ...`; _store_value writes `data[key] = value`
@@ -280,7 +280,7 @@ def r2(ctx, R):
             R.bad(ef, r_, "_eval_formula does not return the computed value")
 
 
-@rule("C01.R3", "C01", "FLOW", "every spelling of a call is normalised to one key", min_instances=14)
+@rule("C01.R3", "C01", "FLOW", "every spelling of a call is normalised to one key", min_instances=14, also=("C07",))
 def r3(ctx, R):
     """get_node builds the key with _bind_args; _bind_args / node_get_args follow
     bind -> apply_defaults -> arguments; callers of eval_node pass get_node(...) or
